@@ -40,6 +40,17 @@ def gen_merge_pair(rng):
         t = rng.choice(c1["a"])
         if set(t[0]) <= set(i2):
             c2["a"].append(rng.choice([t, gen.scaled(rng, t)]))
+    if rng.random() < 0.15:
+        # a term stated twice by the first operand (assumptions are never simplified), shared with the second operand, which
+        # adds one more term: unions must still pick that one up
+        role = rng.choice(["a", "g"])
+        pool2 = i2 if role == "a" else i2 + o2
+        cands = [t for t in c1[role] if set(t[0]) <= set(pool2)]
+        if cands and pool2:
+            t = rng.choice(cands)
+            c1[role] = [t, t] + [u for u in c1[role] if u is not t][:1]
+            extra = gen.rand_term(rng, pool2, "dyadic", point=p)
+            c2[role] = [t] + ([c1[role][2]] if len(c1[role]) > 2 and set(c1[role][2][0]) <= set(pool2) else []) + [extra]
     # look-alikes that are NOT duplicates: same variables, same constant, some but not all coefficients equal
     def lookalike(t):
         vs_ = list(t[0])
@@ -57,12 +68,12 @@ def gen_merge_pair(rng):
                 la = lookalike(rng.choice(cands))
                 if la:
                     c2[role].append(la)
-    if mode != "clash" and rng.random() < 0.12:
+    if mode != "clash" and rng.random() < 0.2:
         # very different scales across the two viewpoints: a small coefficient (7.6e-6) that still matters at the edge of the
         # box in one, a large one (1024) in the other, over a shared input that nothing else constrains
         for c in (c1, c2):
             c["i"] = list(c["i"]) + ["p"]
-        c1["g"].append(({c1["o"][0]: F(1), "p": F(rng.choice([1, -1]), 2 ** 17)}, F(rng.randint(0, 3))))
+        c1["g"].append(({c1["o"][0]: F(1), "p": F(rng.choice([1, -1]), rng.choice([2 ** 17, 2 ** 20, 2 ** 20]))}, F(rng.randint(0, 3))))
         c2["g"].append(({c2["o"][-1]: F(1), "p": F(rng.choice([1024, -1024, 2048]))}, F(rng.randint(0, 3))))
     return mode, c1, c2
 
